@@ -151,7 +151,8 @@ impl<'m, M: Model> Search<'m, M> {
                                                 *eo,
                                                 || {
                                                     let mut t = s.clone();
-                                                    let r = model.step(&mut t, op);
+                                                    // one step = one watched call: queries made by the oracle count too
+                                                    let r = crate::panics::watch(|| model.step(&mut t, op));
                                                     (t, r)
                                                 },
                                                 |trace: &[Draw], (t, r)| {
